@@ -125,6 +125,8 @@ def warm(o, calls):
 
 def spw(seq, case):
     """SequenceParameters(seq) after the case's warm-up history (if any)."""
+    if isinstance(case, dict) and case.get("paste") is not None:
+        seq = pasted_k(seq, case["paste"])       # the same residues as they arrive from a paste (lower case / stripped whitespace)
     return warm(sp(seq), case.get("warm") if isinstance(case, dict) else None)
 
 
@@ -139,9 +141,12 @@ def arrange_blocky(P, M, Z, rnd):
 
 
 def pasted(seq, rnd):
+    return pasted_k(seq, rnd.randrange(7))
+
+
+def pasted_k(seq, k):
     """A documented alternative spelling of the same sequence as it arrives from a paste: lower case and/or the whitespace the
     constructor strips (trailing newline, blocks of ten, wrapped lines, tabs, leading blanks)."""
-    k = rnd.randrange(7)
     if k == 0:
         return seq + "\n"
     if k == 1:
